@@ -434,6 +434,15 @@ def explore_stmts(run, n_random):
                     "        def __setattr__(self, name, value):\n            if name not in self._known:\n"
                     "                raise AttributeError('%s has no attribute %r' % (type(self).__name__, name))\n"
                     "            object.__setattr__(self, name, value)\n    return Sealed\n\n")
+        # a class and a subclass that does not declare `_attributes` again, an instance of each in one statement (the other one read
+        # inside a called function, on a plain line of its own)
+        family_stmts = ["b.x += reading(d)", "d.x += reading(b)", "b.x = reading(d) + 1", "d.x -= reading(b) * 2"]
+        src5.append("def make_family():\n"
+                    "    class Base(metaclass=mtsa.MetaThreadSafeAttributes):\n        _attributes = ['x']\n\n"
+                    "    class Derived(Base):\n        pass\n    return Base, Derived\n\n"
+                    "def reading(other):\n    value = other.x\n    return value\n\n")
+        for k, t in enumerate(family_stmts):
+            src5.append("def y%d(b, d, b2):\n    %s\n" % (k, t))
         for k, t in enumerate(sealed_stmts):
             src5.append("def z%d(o, v0, v1, v2, d):\n    %s\n" % (k, t))
         for k, t in enumerate(hook_stmts):
@@ -444,6 +453,33 @@ def explore_stmts(run, n_random):
             spec5 = importlib.util.spec_from_file_location("_gen_hooks", path5)
             mod5 = importlib.util.module_from_spec(spec5)
             spec5.loader.exec_module(mod5)
+            import inspect as _inspect
+            for k, t in enumerate(family_stmts):
+                Base, Derived = mod5.make_family()
+                b, d, b2 = Base(), Derived(), Base()
+                descs = {}
+                for cls in (Base, Derived):
+                    dsc = _inspect.getattr_static(cls, "x")
+                    if id(dsc) not in descs:
+                        dsc._lock = dsched.DRLock()
+                        descs[id(dsc)] = (cls.__name__, dsc)
+                err = None
+                try:
+                    b.x, d.x, b2.x = 1, 2, 3
+                    getattr(mod5, "y%d" % k)(b, d, b2)
+                except Exception as ex:  # noqa
+                    err = "%s: %s" % (type(ex).__name__, ex)
+                held = {nm: dsc._lock._count for nm, dsc in descs.values() if dsc._lock._count}
+                cj = {"what": "stmt-family", "stmt": t}
+                run.count("statement using an instance of a class and of its subclass (no second `_attributes`)")
+                run.traces_validated += 1
+                if err:
+                    run.violate("C28/statement-error/base-and-subclass", "`%s` (b: Base, d: Derived(Base) without its own _attributes; reading(o) reads o.x on a "
+                                "line of its own) raised %s" % (t, err), cj)
+                elif held:
+                    run.violate("C28/lock-leak/base-and-subclass", "after `%s` (b: Base, d: Derived(Base) without its own _attributes; reading(o) reads o.x on a "
+                                "line of its own) the calling thread still holds the lock of x (%s)" % (t, held), cj)
+                run.case(cj, nontrivial=True)
             for k, t in enumerate(sealed_stmts):
                 Sealed = mod5.make_sealed()
                 o7 = Sealed()
@@ -638,6 +674,10 @@ def gen_json(rng, depth):
         return rng.choice([None, True, False, 0, -1, 2 ** 70, -0.0, 1.5, 1e-7, 1e300, "", "a", "é \"\\\n", "x" * 40, rng.randint(-10 ** 6, 10 ** 6),
                            rng.random()])
     if r < 0.75:
+        if rng.random() < 0.15:
+            # the SAME container object reachable more than once (a row repeated, one list filed under two keys): not circular
+            shared = rng.choice([[1, 2], {}, [], {"k": [0]}, [gen_json(rng, 0)]])
+            return rng.choice([[shared] * rng.randint(2, 3), {"last": shared, "best": shared}, [shared, 7, shared], {"a": [shared], "b": {"c": shared}}])
         return [gen_json(rng, depth - 1) for _ in range(rng.randint(0, 4))]
     if rng.random() < 0.12:
         # a dict that looks like a serialised event itself
